@@ -618,3 +618,10 @@ def run(idx, rep, tier):
     c06r1(k)
     for o in rep.obligations[before:]:
         o.rule = 'C11.R6'
+    # C11.R10: shared rule
+    from .c06 import r2 as _c06r2b
+    rep.rule('C11.R10', 'sequence numbers across re-exchanges (= C06.R2): the rollover guard fires only while no cipher is in effect (initial exchange), never during a re-exchange; strict-KEX state is fixed by the first KEXINIT')
+    _before = len(rep.obligations)
+    _c06r2b(k)
+    for o in rep.obligations[_before:]:
+        o.rule = 'C11.R10'
